@@ -884,6 +884,15 @@ cannot initialise file actions: %s", STRERR);
 	/* let's be quick and set up an event loop */
 	if (chld > 0) {
 		ev_child c;
+		/* the watchers must live as long as the loop below runs */
+		struct data_s o = {
+			.mailfd = t->mfd,
+			.filefd = t->teeo,
+		};
+		struct data_s e = {
+			.mailfd = t->mfd,
+			.filefd = t->teee,
+		};
 
 		ev_child_init(&c, chld_cb, chld, false);
 		c.data = t;
@@ -891,15 +900,6 @@ cannot initialise file actions: %s", STRERR);
 
 		/* rearrange the descriptors again, for the mailer */
 		if (t->opip >= 0 || t->epip >= 0) {
-			struct data_s o = {
-				.mailfd = t->mfd,
-				.filefd = t->teeo,
-			};
-			struct data_s e = {
-				.mailfd = t->mfd,
-				.filefd = t->teee,
-			};
-
 			assert(t->opip >= 0);
 			assert(t->epip >= 0);
 
